@@ -24,11 +24,11 @@ Proof. destruct a, b; cbn; split; intro H; try reflexivity; discriminate. Qed.
 Lemma pstate_eqb_refl : forall a, pstate_eqb a a = true.
 Proof. destruct a; reflexivity. Qed.
 
-(* the control part of an endpoint: everything the C12 theorems talk about *)
+(* the control part of an endpoint: everything the C12 theorems talk about, except the two event fields *)
 Definition same_ctl (s s' : ep) : Prop :=
   u_state s' = u_state s /\ u_sync_remaining s' = u_sync_remaining s /\
   u_sync_requests s' = u_sync_requests s /\ u_notify_sent s' = u_notify_sent s /\
-  u_event_sent s' = u_event_sent s /\ u_remote_magic s' = u_remote_magic s /\
+  u_remote_magic s' = u_remote_magic s /\
   u_last_recv_time s' = u_last_recv_time s /\ u_notify_start s' = u_notify_start s /\
   u_timeout s' = u_timeout s /\ u_last_sync_request_time s' = u_last_sync_request_time s.
 
@@ -37,16 +37,25 @@ Proof. intro s; repeat split. Qed.
 Lemma same_ctl_trans : forall a b c, same_ctl a b -> same_ctl b c -> same_ctl a c.
 Proof.
   unfold same_ctl; intros a b c H1 H2.
-  destruct H1 as (?&?&?&?&?&?&?&?&?&?), H2 as (?&?&?&?&?&?&?&?&?&?).
+  destruct H1 as (?&?&?&?&?&?&?&?&?), H2 as (?&?&?&?&?&?&?&?&?).
   repeat split; congruence.
+Qed.
+
+(* nothing C12 talks about changes *)
+Definition frame (s s' : ep) : Prop :=
+  same_ctl s s' /\ u_event_sent s' = u_event_sent s /\ u_event_queue s' = u_event_queue s.
+Lemma frame_refl : forall s, frame s s.
+Proof. intro s; repeat split. Qed.
+Lemma frame_trans : forall a b c, frame a b -> frame b c -> frame a c.
+Proof.
+  intros a b c (H1 & H2 & H3) (H4 & H5 & H6). split; [eapply same_ctl_trans; eauto|]. split; congruence.
 Qed.
 
 Definition is_input (e : event) : bool := match e with EvInput _ _ _ => true | _ => false end.
 
 (* ---------- helper lemmas about the building blocks ---------- *)
 Lemma send_pending_output_ctl : forall now cs s s',
-  send_pending_output now cs s = Ok s' ->
-  same_ctl s s' /\ u_event_queue s' = u_event_queue s /\ u_pending_output s' = u_pending_output s.
+  send_pending_output now cs s = Ok s' -> frame s s' /\ u_pending_output s' = u_pending_output s.
 Proof.
   intros now cs s s' H. unfold send_pending_output in H.
   destruct (u_pending_output s) as [|[f b] r] eqn:E.
@@ -56,21 +65,19 @@ Proof.
 Qed.
 
 Lemma send_quality_report_ctl : forall now s s',
-  send_quality_report now s = Ok s' ->
-  same_ctl s s' /\ u_event_queue s' = u_event_queue s /\ u_pending_output s' = u_pending_output s.
+  send_quality_report now s = Ok s' -> frame s s' /\ u_pending_output s' = u_pending_output s.
 Proof.
   intros now s s' H. unfold send_quality_report in H.
   destruct (ts_report_frame_advantage _); inversion H; subst. fsimpl. repeat split.
 Qed.
 
-Lemma pop_pending_output_ctl : forall ack s,
-  same_ctl s (pop_pending_output ack s) /\ u_event_queue (pop_pending_output ack s) = u_event_queue s.
+Lemma pop_pending_output_ctl : forall ack s, frame s (pop_pending_output ack s).
 Proof.
   intros ack s. unfold pop_pending_output. destruct (pop_pending _ _ _). fsimpl. repeat split.
 Qed.
 
 Lemma on_checksum_report_ctl : forall dbg c f s s',
-  on_checksum_report dbg c f s = Ok s' -> same_ctl s s' /\ u_event_queue s' = u_event_queue s.
+  on_checksum_report dbg c f s = Ok s' -> frame s s'.
 Proof.
   intros dbg c f s s' H. unfold on_checksum_report in H.
   cbv zeta in H.
@@ -91,19 +98,856 @@ Qed.
 
 Lemma accept_inputs_ctl : forall dbg start inputs i s b s',
   accept_inputs dbg start i inputs s = Ok (b, s') ->
-  same_ctl s s' /\ exists evs, u_event_queue s' = u_event_queue s ++ evs /\ forallb is_input evs = true.
+  same_ctl s s' /\ u_event_sent s' = u_event_sent s /\
+  exists evs, u_event_queue s' = u_event_queue s ++ evs /\ forallb is_input evs = true.
 Proof.
   induction inputs as [|inp rest IH]; intros i s b s' H; cbn [accept_inputs] in H.
-  - inversion H; subst. split; [apply same_ctl_refl|]. exists []. rewrite app_nil_r. auto.
+  - inversion H; subst. split; [apply same_ctl_refl|]. split; [reflexivity|].
+    exists []. rewrite app_nil_r. auto.
   - destruct (ts_i32_arith dbg (start + i)) as [fr| |]; try discriminate.
     destruct (fr <=? last_recv_frame s).
     + eapply IH; eauto.
     + destruct (to_player_inputs _ inp) as [vals|].
       * destruct (input_events fr vals (u_handles s)) as [evs| |] eqn:Ee; try discriminate.
-        apply IH in H. destruct H as [Hc (evs' & Hq & Hall)]. fsimpl.
-        split.
-        -- eapply same_ctl_trans; [|exact Hc]. repeat split.
-        -- exists (evs ++ evs'). rewrite Hq, app_assoc. split; [reflexivity|].
-           rewrite forallb_app, Hall, (input_events_all_input _ _ _ _ Ee). reflexivity.
-      * inversion H; subst. split; [apply same_ctl_refl|]. exists []. rewrite app_nil_r. auto.
+        apply IH in H. destruct H as (Hc & He & evs' & Hq & Hall). fsimpl.
+        split; [eapply same_ctl_trans; [|exact Hc]; repeat split|].
+        split; [exact He|].
+        exists (evs ++ evs'). rewrite Hq, app_assoc. split; [reflexivity|].
+        rewrite forallb_app, Hall, (input_events_all_input _ _ _ _ Ee). reflexivity.
+      * inversion H; subst. split; [apply same_ctl_refl|]. split; [reflexivity|].
+        exists []. rewrite app_nil_r. auto.
+Qed.
+
+(* a step that leaves the control part alone and pushes Input events and at most one Disconnected,
+   the latter only under the disconnect_event_sent guard *)
+Definition quiet (s s' : ep) : Prop :=
+  same_ctl s s' /\
+  exists evs, forallb is_input evs = true /\
+    ((u_event_sent s = false /\ u_state s <> PDisconnected /\ u_event_sent s' = true /\
+      u_event_queue s' = u_event_queue s ++ EvDisconnected :: evs) \/
+     (u_event_sent s' = u_event_sent s /\ u_event_queue s' = u_event_queue s ++ evs)).
+
+Lemma frame_quiet : forall s s', frame s s' -> quiet s s'.
+Proof.
+  intros s s' (H1 & H2 & H3). split; [exact H1|]. exists []. split; [reflexivity|].
+  right. rewrite app_nil_r. auto.
+Qed.
+
+Lemma on_input_quiet : forall dbg now st dr sf af bytes s s',
+  on_input dbg now st dr sf af bytes s = Ok s' -> quiet s s'.
+Proof.
+  intros dbg now st dr sf af bytes s s' H. unfold on_input in H.
+  destruct (negb dr && negb (Z.of_nat (length st) =? u_num_players s));
+    [inversion H; subst; apply frame_quiet, frame_refl|].
+  destruct (sf <? 0); [inversion H; subst; apply frame_quiet, frame_refl|].
+  cbv zeta in H.
+  pose proof (pop_pending_output_ctl af s) as (Hp1 & Hp2 & Hp3).
+  set (s1 := pop_pending_output af s) in *.
+  (* the state after the status update / disconnect request: quiet w.r.t. s, with no inputs yet *)
+  match type of H with
+  | match ?X with _ => _ end = _ => destruct X as [s2| |] eqn:E2; try discriminate
+  end.
+  assert (Hs2 :
+    same_ctl s s2 /\
+    ((u_event_sent s = false /\ u_state s <> PDisconnected /\ u_event_sent s2 = true /\
+      u_event_queue s2 = u_event_queue s ++ [EvDisconnected]) \/
+     (u_event_sent s2 = u_event_sent s /\ u_event_queue s2 = u_event_queue s))).
+  { destruct dr.
+    - destruct (negb (pstate_eqb (u_state s1) PDisconnected) && negb (u_event_sent s1)) eqn:Ec;
+        inversion E2; subst; fsimpl.
+      + apply andb_true_iff in Ec. destruct Ec as [Ec1 Ec2].
+        split; [exact Hp1|]. left.
+        rewrite Hp2 in Ec2. destruct (u_event_sent s); [discriminate|].
+        split; [reflexivity|]. split.
+        * intro Hd. destruct Hp1 as (Hst & _). rewrite Hst, Hd in Ec1. discriminate.
+        * split; [reflexivity|]. rewrite Hp3. reflexivity.
+      + split; [exact Hp1|]. right. auto.
+    - destruct (merge_status _ _); inversion E2; subst. fsimpl.
+      split; [exact Hp1|]. right. auto. }
+  clear E2. destruct Hs2 as (Hc2 & Hq2).
+  (* whatever follows only appends inputs *)
+  assert (Hrest : forall s', same_ctl s2 s' -> u_event_sent s' = u_event_sent s2 ->
+            (exists evs, u_event_queue s' = u_event_queue s2 ++ evs /\ forallb is_input evs = true) ->
+            quiet s s').
+  { intros t Hc He (evs & Hq & Hall). split; [eapply same_ctl_trans; eauto|].
+    exists evs. split; [exact Hall|].
+    destruct Hq2 as [(A & B & C & D)|(A & B)].
+    - left. repeat split; try assumption; try congruence.
+      rewrite Hq, D, <- app_assoc. reflexivity.
+    - right. split; [congruence|]. rewrite Hq, B. reflexivity. }
+  destruct (alookup _ (u_recv_inputs s2)) as [ref|].
+  - destruct (Codec.decode dbg ref bytes) as [inputs| |]; try discriminate.
+    + destruct (accept_inputs dbg sf 0 inputs (set_last_input_recv now s2)) as [[b s4]| |] eqn:Ea;
+        try discriminate.
+      apply accept_inputs_ctl in Ea. destruct Ea as (Hc4 & He4 & evs & Hq4 & Hall). fsimpl.
+      destruct b.
+      * destruct (ts_i32_arith dbg _) as [w| |]; try discriminate.
+        destruct (ts_i32_arith dbg _) as [lo| |]; try discriminate.
+        inversion H; subst. apply Hrest; fsimpl.
+        -- eapply same_ctl_trans; [|eapply same_ctl_trans; [exact Hc4|]]; repeat split.
+        -- exact He4.
+        -- exists evs. auto.
+      * inversion H; subst. apply Hrest.
+        -- eapply same_ctl_trans; [|exact Hc4]. repeat split.
+        -- exact He4.
+        -- exists evs. auto.
+    + inversion H; subst. apply Hrest; fsimpl; [repeat split|reflexivity|].
+      exists []. rewrite app_nil_r. auto.
+  - destruct (sf <=? last_recv_frame s2); inversion H; subst; apply Hrest; fsimpl;
+      try (repeat split; fail); try reflexivity; exists []; rewrite app_nil_r; auto.
+Qed.
+
+(* ---------- the effect of each operation on the control part ---------- *)
+Definition WRAP : Z := 4294967296.
+
+Lemma on_sync_reply_spec : forall dbg now nonce mg n s s',
+  on_sync_reply dbg now nonce mg n s = Ok s' ->
+  (pstate_eqb (u_state s) PSynchronizing && zmem n (u_sync_requests s) = false /\ s' = s) \/
+  (u_state s = PSynchronizing /\ zmem n (u_sync_requests s) = true /\
+   u_sync_remaining s' = (u_sync_remaining s - 1) mod WRAP /\
+   u_notify_sent s' = u_notify_sent s /\ u_event_sent s' = u_event_sent s /\
+   u_last_recv_time s' = u_last_recv_time s /\ u_notify_start s' = u_notify_start s /\
+   u_timeout s' = u_timeout s /\
+   ((0 < (u_sync_remaining s - 1) mod WRAP /\ u_state s' = PSynchronizing /\
+     u_remote_magic s' = u_remote_magic s /\
+     u_sync_requests s' = zinsert nonce (zremove n (u_sync_requests s)) /\
+     u_event_queue s' = u_event_queue s ++
+       [EvSynchronizing NUM_SYNC_PACKETS ((NUM_SYNC_PACKETS - (u_sync_remaining s - 1) mod WRAP) mod WRAP)]) \/
+    ((u_sync_remaining s - 1) mod WRAP <= 0 /\ u_state s' = PRunning /\ u_remote_magic s' = mg /\
+     u_sync_requests s' = zremove n (u_sync_requests s) /\
+     u_event_queue s' = u_event_queue s ++ [EvSynchronized]))).
+Proof.
+  intros dbg now nonce mg n s s' H. unfold on_sync_reply in H. fold WRAP in H.
+  destruct (pstate_eqb (u_state s) PSynchronizing) eqn:Es; cbn [negb] in H;
+    [|inversion H; subst; left; auto].
+  destruct (zmem n (u_sync_requests s)) eqn:Em; cbn [negb] in H;
+    [|inversion H; subst; left; auto].
+  right. apply pstate_eqb_eq in Es. fsimpl.
+  destruct ((u_sync_remaining s <=? 0) && dbg); [discriminate|].
+  destruct (0 <? (u_sync_remaining s - 1) mod WRAP) eqn:Ep.
+  - destruct ((NUM_SYNC_PACKETS <? (u_sync_remaining s - 1) mod WRAP) && dbg); [discriminate|].
+    inversion H; subst; fsimpl. apply Z.ltb_lt in Ep.
+    repeat (split; [first [assumption|reflexivity]|]). left. repeat split; assumption.
+  - inversion H; subst; fsimpl. apply Z.ltb_ge in Ep.
+    repeat (split; [first [assumption|reflexivity]|]). right. repeat split; assumption.
+Qed.
+
+Definition resumed_pre (s : ep) : list event :=
+  if u_notify_sent s && pstate_eqb (u_state s) PRunning then [EvNetworkResumed] else [].
+
+Lemma passes_input_running : forall s m,
+  passes_filters s m = true -> is_handshake (m_body m) = false -> u_state s <> PDisconnected ->
+  u_state s = PRunning.
+Proof.
+  intros s m H Hh Hd. unfold passes_filters in H. rewrite Hh in H.
+  destruct (u_state s); cbn in H; try reflexivity; try congruence;
+    rewrite ?andb_false_r in H; try discriminate.
+Qed.
+
+(* everything but a matched SyncReply *)
+Definition msg_other (s s' : ep) : Prop :=
+  u_state s' = u_state s /\ u_sync_remaining s' = u_sync_remaining s /\
+  u_sync_requests s' = u_sync_requests s /\ u_remote_magic s' = u_remote_magic s /\
+  u_last_sync_request_time s' = u_last_sync_request_time s /\
+  exists evs, forallb is_input evs = true /\
+    ((u_event_sent s = false /\ u_state s = PRunning /\ u_event_sent s' = true /\
+      u_event_queue s' = u_event_queue s ++ resumed_pre s ++ EvDisconnected :: evs) \/
+     (u_event_sent s' = u_event_sent s /\ u_event_queue s' = u_event_queue s ++ resumed_pre s ++ evs)).
+
+Definition msg_matched (nonce : Z) (m : message) (s s' : ep) : Prop :=
+  exists n, m_body m = SyncReply n /\
+   u_state s = PSynchronizing /\ zmem n (u_sync_requests s) = true /\
+   u_sync_remaining s' = (u_sync_remaining s - 1) mod WRAP /\ u_event_sent s' = u_event_sent s /\
+   ((0 < (u_sync_remaining s - 1) mod WRAP /\ u_state s' = PSynchronizing /\
+     u_remote_magic s' = u_remote_magic s /\
+     u_sync_requests s' = zinsert nonce (zremove n (u_sync_requests s)) /\
+     u_event_queue s' = u_event_queue s ++
+       [EvSynchronizing NUM_SYNC_PACKETS ((NUM_SYNC_PACKETS - (u_sync_remaining s - 1) mod WRAP) mod WRAP)]) \/
+    ((u_sync_remaining s - 1) mod WRAP <= 0 /\ u_state s' = PRunning /\ u_remote_magic s' = m_magic m /\
+     u_sync_requests s' = zremove n (u_sync_requests s) /\
+     u_event_queue s' = u_event_queue s ++ [EvSynchronized])).
+
+Lemma handle_message_effect : forall dbg now nonce m s s',
+  handle_message dbg now nonce m s = Ok s' ->
+  (passes_filters s m = false /\ s' = s) \/
+  (passes_filters s m = true /\ u_last_recv_time s' = now /\
+   u_notify_start s' = u_notify_start s /\ u_timeout s' = u_timeout s /\
+   u_notify_sent s' = u_notify_sent s && negb (pstate_eqb (u_state s) PRunning) /\
+   ((match_of s (OMessage now nonce m) <> [] /\ msg_matched nonce m s s') \/
+    (match_of s (OMessage now nonce m) = [] /\ msg_other s s'))).
+Proof.
+  intros dbg now nonce m s s' H. unfold handle_message in H.
+  destruct (passes_filters s m) eqn:Ep; cbn [negb] in H; [|inversion H; subst; left; auto].
+  right. split; [reflexivity|]. cbv zeta in H.
+  set (s1 := set_last_recv_time now s) in *.
+  set (s2 := if u_notify_sent s1 && pstate_eqb (u_state s1) PRunning
+             then push_event EvNetworkResumed (set_notify_sent false s1) else s1) in *.
+  (* facts about s2 *)
+  assert (F : u_state s2 = u_state s /\ u_sync_remaining s2 = u_sync_remaining s /\
+              u_sync_requests s2 = u_sync_requests s /\ u_remote_magic s2 = u_remote_magic s /\
+              u_last_sync_request_time s2 = u_last_sync_request_time s /\
+              u_last_recv_time s2 = now /\ u_notify_start s2 = u_notify_start s /\
+              u_timeout s2 = u_timeout s /\ u_event_sent s2 = u_event_sent s /\
+              u_notify_sent s2 = u_notify_sent s && negb (pstate_eqb (u_state s) PRunning) /\
+              u_event_queue s2 = u_event_queue s ++ resumed_pre s).
+  { subst s2 s1. unfold resumed_pre. fsimpl.
+    destruct (u_notify_sent s) eqn:En; destruct (pstate_eqb (u_state s) PRunning) eqn:Er;
+      cbn [andb negb]; fsimpl; rewrite ?En, ?app_nil_r; repeat split. }
+  destruct F as (F1 & F2 & F3 & F4 & F5 & F6 & F7 & F8 & F9 & F10 & F11).
+  (* a step from s2 that is a frame gives msg_other *)
+  assert (Hframe : forall t, frame s2 t ->
+            u_last_recv_time t = now /\ u_notify_start t = u_notify_start s /\ u_timeout t = u_timeout s /\
+            u_notify_sent t = u_notify_sent s && negb (pstate_eqb (u_state s) PRunning) /\ msg_other s t).
+  { intros t ((A1 & A2 & A3 & A4 & A5 & A6 & A7 & A8 & A9) & B & C).
+    repeat (split; [congruence|]). unfold msg_other. repeat (split; [congruence|]).
+    exists []. split; [reflexivity|]. right. split; [congruence|]. rewrite C, F11, app_nil_r. reflexivity. }
+  destruct (m_body m) as [n|n|st dr sf af bytes|f|adv ping|pong|c f|] eqn:Eb.
+  - (* SyncRequest *)
+    inversion H; subst s'.
+    destruct (Hframe (queue_message now (SyncReply n) s2)) as (A & B & C & D & E); [fsimpl; repeat split|].
+    repeat (split; [assumption|]). right. split; [|exact E]. unfold match_of; rewrite Eb; reflexivity.
+  - (* SyncReply *)
+    apply on_sync_reply_spec in H. rewrite F1, F3 in H.
+    destruct H as [(Hn & ->)|(Hs & Hm & R1 & R2 & R3 & R4 & R5 & R6 & R7)].
+    + destruct (Hframe s2 (frame_refl _)) as (A & B & C & D & E).
+      repeat (split; [assumption|]). right. split; [|exact E].
+      unfold match_of. rewrite Eb, Ep. cbn [andb]. rewrite Hn. reflexivity.
+    + rewrite F2 in *. 
+      repeat (split; [congruence|]). left. split.
+      * unfold match_of. rewrite Eb, Ep, Hs, Hm. cbn. discriminate.
+      * exists n. split; [exact Eb|]. split; [exact Hs|]. split; [exact Hm|]. split; [exact R1|].
+        split; [congruence|].
+        assert (Er : resumed_pre s = []) by (unfold resumed_pre; rewrite Hs; cbn [pstate_eqb]; rewrite andb_false_r; reflexivity).
+        rewrite F11, Er, app_nil_r, F4 in R7. exact R7.
+  - (* Input *)
+    apply on_input_quiet in H.
+    destruct H as ((A1 & A2 & A3 & A4 & A5 & A6 & A7 & A8 & A9) & evs & Hall & Hq).
+    repeat (split; [congruence|]). right. split; [unfold match_of; rewrite Eb; reflexivity|].
+    unfold msg_other. repeat (split; [congruence|]).
+    exists evs. split; [exact Hall|].
+    destruct Hq as [(B1 & B2 & B3 & B4)|(B1 & B2)].
+    + left. split; [congruence|]. split.
+      * eapply passes_input_running; eauto; [rewrite Eb; reflexivity|congruence].
+      * split; [exact B3|]. rewrite B4, F11, <- app_assoc. reflexivity.
+    + right. split; [congruence|]. rewrite B2, F11, <- app_assoc. reflexivity.
+  - (* InputAck *)
+    inversion H; subst s'.
+    destruct (Hframe _ (pop_pending_output_ctl f s2)) as (A & B & C & D & E).
+    repeat (split; [assumption|]). right. split; [|exact E]. unfold match_of; rewrite Eb; reflexivity.
+  - (* QualityReport *)
+    inversion H; subst s'.
+    destruct (Hframe (queue_message now (QualityReply ping) (set_remote_adv adv s2))) as (A & B & C & D & E);
+      [fsimpl; repeat split|].
+    repeat (split; [assumption|]). right. split; [|exact E]. unfold match_of; rewrite Eb; reflexivity.
+  - (* QualityReply *)
+    inversion H; subst s'.
+    destruct (Hframe (set_rtt (ts_round_trip_time now pong) s2)) as (A & B & C & D & E);
+      [fsimpl; repeat split|].
+    repeat (split; [assumption|]). right. split; [|exact E]. unfold match_of; rewrite Eb; reflexivity.
+  - (* ChecksumReport *)
+    apply on_checksum_report_ctl in H.
+    destruct (Hframe _ H) as (A & B & C & D & E).
+    repeat (split; [assumption|]). right. split; [|exact E]. unfold match_of; rewrite Eb; reflexivity.
+  - (* KeepAlive *)
+    inversion H; subst s'.
+    destruct (Hframe s2 (frame_refl _)) as (A & B & C & D & E).
+    repeat (split; [assumption|]). right. split; [|exact E]. unfold match_of; rewrite Eb; reflexivity.
+Qed.
+
+Definition interrupt_now (now : Z) (s : ep) : bool :=
+  negb (u_notify_sent s) && (u_last_recv_time s + u_notify_start s <? now).
+Definition timeout_now (now : Z) (s : ep) : bool :=
+  negb (u_event_sent s) && (u_last_recv_time s + u_timeout s <? now).
+Definition poll_pushed (now : Z) (s : ep) : list event :=
+  (if interrupt_now now s then [EvNetworkInterrupted (Z.max 0 (u_timeout s - u_notify_start s))] else []) ++
+  (if timeout_now now s then [EvDisconnected] else []).
+
+Lemma poll_running_effect : forall now cs s s',
+  poll_running now cs s = Ok s' ->
+  u_state s' = u_state s /\ u_sync_remaining s' = u_sync_remaining s /\
+  u_sync_requests s' = u_sync_requests s /\ u_remote_magic s' = u_remote_magic s /\
+  u_last_recv_time s' = u_last_recv_time s /\ u_notify_start s' = u_notify_start s /\
+  u_timeout s' = u_timeout s /\ u_last_sync_request_time s' = u_last_sync_request_time s /\
+  u_notify_sent s' = u_notify_sent s || interrupt_now now s /\
+  u_event_sent s' = u_event_sent s || timeout_now now s /\
+  u_event_queue s' = u_event_queue s ++ poll_pushed now s.
+Proof.
+  intros now cs s s' H. unfold poll_running in H. cbv zeta in H.
+  match type of H with match ?X with _ => _ end = _ => destruct X as [s1| |] eqn:E1; try discriminate end.
+  assert (F1 : frame s s1).
+  { destruct (u_last_input_recv s + RUNNING_RETRY_INTERVAL <? now).
+    - destruct (send_pending_output now cs s) as [t| |] eqn:Et; try discriminate.
+      apply send_pending_output_ctl in Et. destruct Et as [Et _]. inversion E1; subst.
+      eapply frame_trans; [exact Et|]. fsimpl. repeat split.
+    - inversion E1; subst. apply frame_refl. }
+  clear E1.
+  match type of H with match ?X with _ => _ end = _ => destruct X as [s2| |] eqn:E2; try discriminate end.
+  assert (F2 : frame s1 s2).
+  { destruct (u_last_quality_report s1 + QUALITY_REPORT_INTERVAL <? now).
+    - apply send_quality_report_ctl in E2. tauto.
+    - inversion E2; subst. apply frame_refl. }
+  clear E2.
+  set (s3 := if u_last_send_time s2 + KEEP_ALIVE_INTERVAL <? now then send_keep_alive now s2 else s2) in *.
+  assert (F3 : frame s2 s3).
+  { subst s3. destruct (u_last_send_time s2 + KEEP_ALIVE_INTERVAL <? now); [fsimpl|]; repeat split. }
+  pose proof (frame_trans _ _ _ (frame_trans _ _ _ F1 F2) F3) as F.
+  destruct F as ((A1 & A2 & A3 & A4 & A5 & A6 & A7 & A8 & A9) & B & C).
+  clearbody s3. clear F1 F2 F3.
+  inversion H; subst s'; clear H.
+  unfold poll_pushed, interrupt_now, timeout_now. rewrite <- A4, <- A6, <- A7, <- A8, <- B, <- C.
+  destruct (negb (u_notify_sent s3) && (u_last_recv_time s3 + u_notify_start s3 <? now)) eqn:EI; fsimpl;
+  destruct (negb (u_event_sent s3) && (u_last_recv_time s3 + u_timeout s3 <? now)) eqn:ET; fsimpl;
+  rewrite ?orb_true_r, ?orb_false_r, ?app_nil_r, <- ?app_assoc; cbn [app]; repeat split; congruence.
+Qed.
+
+Lemma poll_effect : forall now nonce cs s out s',
+  poll now nonce cs s = Ok (out, s') ->
+  u_event_queue s' = [] /\ u_notify_start s' = u_notify_start s /\ u_timeout s' = u_timeout s /\
+  u_last_recv_time s' = u_last_recv_time s /\ u_remote_magic s' = u_remote_magic s /\
+  u_sync_remaining s' = u_sync_remaining s /\
+  match u_state s with
+  | PRunning =>
+    u_state s' = PRunning /\ u_sync_requests s' = u_sync_requests s /\
+    u_notify_sent s' = u_notify_sent s || interrupt_now now s /\
+    u_event_sent s' = u_event_sent s || timeout_now now s /\
+    out = u_event_queue s ++ poll_pushed now s
+  | PSynchronizing =>
+    u_state s' = PSynchronizing /\ u_notify_sent s' = u_notify_sent s /\ u_event_sent s' = u_event_sent s /\
+    out = u_event_queue s /\
+    u_sync_requests s' = (if u_last_sync_request_time s + SYNC_RETRY_INTERVAL <? now
+                          then zinsert nonce (u_sync_requests s) else u_sync_requests s)
+  | PDisconnected =>
+    u_state s' = (if u_shutdown_timeout s <? now then PShutdown else PDisconnected) /\
+    u_notify_sent s' = u_notify_sent s /\ u_event_sent s' = u_event_sent s /\
+    out = u_event_queue s /\ u_sync_requests s' = u_sync_requests s
+  | st =>
+    u_state s' = st /\ u_notify_sent s' = u_notify_sent s /\ u_event_sent s' = u_event_sent s /\
+    out = u_event_queue s /\ u_sync_requests s' = u_sync_requests s
+  end.
+Proof.
+  intros now nonce cs s out s' H. unfold poll in H. cbv zeta in H.
+  destruct (u_state s) eqn:Es.
+  - inversion H; subst; fsimpl. rewrite Es. repeat split.
+  - destruct (u_last_sync_request_time s + SYNC_RETRY_INTERVAL <? now); inversion H; subst; fsimpl;
+      rewrite ?Es; repeat split.
+  - destruct (poll_running now cs s) as [t| |] eqn:Et; try discriminate.
+    apply poll_running_effect in Et.
+    destruct Et as (A1 & A2 & A3 & A4 & A5 & A6 & A7 & A8 & A9 & A10 & A11).
+    inversion H; subst; fsimpl. rewrite Es in A1. repeat split; assumption.
+  - destruct (u_shutdown_timeout s <? now); inversion H; subst; fsimpl; rewrite ?Es; repeat split.
+  - inversion H; subst; fsimpl. rewrite Es. repeat split.
+Qed.
+
+Lemma send_input_effect : forall now inputs cs s s',
+  send_input now inputs cs s = Ok s' ->
+  same_ctl s s' /\
+  ((u_event_sent s = false /\ u_state s = PRunning /\ u_event_sent s' = true /\
+    u_event_queue s' = u_event_queue s ++ [EvDisconnected]) \/
+   (u_event_sent s' = u_event_sent s /\ u_event_queue s' = u_event_queue s)).
+Proof.
+  intros now inputs cs s s' H. unfold send_input, send_input_gen in H.
+  destruct (pstate_eqb (u_state s) PRunning) eqn:Er; cbn [negb] in H.
+  2:{ inversion H; subst. split; [apply same_ctl_refl|]. right. auto. }
+  apply pstate_eqb_eq in Er.
+  destruct (from_inputs _ _) as [data| |]; try discriminate.
+  destruct (ts_advance_frame _ _ _ _) as [ts| |]; try discriminate.
+  cbv zeta in H. apply send_pending_output_ctl in H. destruct H as [(Hc & He & Hq) _].
+  match type of Hc with same_ctl ?X _ => set (s2 := X) in * end.
+  destruct (PENDING_OUTPUT_SIZE <? _)%N.
+  - destruct (u_event_sent (set_pending_output (u_pending_output s ++ [data]) (set_time_sync ts s))) eqn:Ee;
+      subst s2; fsimpl.
+    + split; [eapply same_ctl_trans; [|exact Hc]; repeat split|]. right. split; congruence.
+    + split; [eapply same_ctl_trans; [|exact Hc]; repeat split|]. left. repeat split; assumption.
+  - subst s2; fsimpl. split; [eapply same_ctl_trans; [|exact Hc]; repeat split|]. right. auto.
+Qed.
+
+Lemma synchronize_effect : forall now nonce s s',
+  synchronize now nonce s = Ok s' ->
+  u_state s = PInitializing /\ u_state s' = PSynchronizing /\ u_sync_remaining s' = NUM_SYNC_PACKETS /\
+  u_sync_requests s' = zinsert nonce (u_sync_requests s) /\
+  u_notify_sent s' = u_notify_sent s /\ u_event_sent s' = u_event_sent s /\
+  u_remote_magic s' = u_remote_magic s /\ u_last_recv_time s' = u_last_recv_time s /\
+  u_notify_start s' = u_notify_start s /\ u_timeout s' = u_timeout s /\
+  u_event_queue s' = u_event_queue s.
+Proof.
+  intros now nonce s s' H. unfold synchronize in H.
+  destruct (pstate_eqb (u_state s) PInitializing) eqn:E; [|discriminate].
+  apply pstate_eqb_eq in E. inversion H; subst; fsimpl. repeat split. exact E.
+Qed.
+
+Lemma disconnect_effect : forall now s,
+  let s' := disconnect now s in
+  u_state s' = (if pstate_eqb (u_state s) PShutdown then PShutdown else PDisconnected) /\
+  u_sync_remaining s' = u_sync_remaining s /\ u_sync_requests s' = u_sync_requests s /\
+  u_notify_sent s' = u_notify_sent s /\ u_event_sent s' = u_event_sent s /\
+  u_remote_magic s' = u_remote_magic s /\ u_last_recv_time s' = u_last_recv_time s /\
+  u_notify_start s' = u_notify_start s /\ u_timeout s' = u_timeout s /\
+  u_event_queue s' = u_event_queue s.
+Proof.
+  intros now s. cbv zeta. unfold disconnect.
+  destruct (pstate_eqb (u_state s) PShutdown) eqn:E; fsimpl; repeat split.
+  apply pstate_eqb_eq in E. exact E.
+Qed.
+
+Lemma misc_effect : forall dbg o s s' out,
+  step dbg o s = Ok (s', out) ->
+  match o with OChecksum _ _ _ | OAdvantage _ | ODrain => frame s s' /\ out = [] | _ => True end.
+Proof.
+  intros dbg o s s' out H. destruct o; try exact I; unfold step in H; cbn [step_gen] in H.
+  - inversion H; subst; fsimpl. repeat split.
+  - unfold update_local_frame_advantage in H.
+    destruct (ts_update_local_frame_advantage _ _ _ _ _ _); inversion H; subst; fsimpl. repeat split.
+  - inversion H; subst. unfold drain; fsimpl. repeat split.
+Qed.
+
+(* ---------- the recogniser ---------- *)
+Lemma recog_app : forall a b r,
+  recog r (a ++ b) = match recog r a with Some r' => recog r' b | None => None end.
+Proof.
+  induction a as [|e a IH]; intros b r; cbn [app recog]; [reflexivity|].
+  destruct (rstep r e); [apply IH|reflexivity].
+Qed.
+
+Lemma recog_inputs : forall evs r, forallb is_input evs = true -> recog r evs = Some r.
+Proof.
+  induction evs as [|e evs IH]; intros r H; cbn in *; [reflexivity|].
+  apply andb_true_iff in H. destruct H as [He H]. destruct e; try discriminate. cbn. auto.
+Qed.
+
+Lemma recog_prefix : forall a b r, recog r (a ++ b) <> None -> recog r a <> None.
+Proof. intros a b r H. rewrite recog_app in H. destruct (recog r a); congruence. Qed.
+
+Lemma wd_app : forall a b, without_disconnected (a ++ b) = without_disconnected a ++ without_disconnected b.
+Proof. intros. unfold without_disconnected. apply filter_app. Qed.
+
+Lemma wd_inputs : forall evs, forallb is_input evs = true -> without_disconnected evs = evs.
+Proof.
+  induction evs as [|e evs IH]; intro H; cbn in *; [reflexivity|].
+  apply andb_true_iff in H. destruct H as [He H]. destruct e; try discriminate. cbn. f_equal. auto.
+Qed.
+
+Lemma cd_app : forall a b, count_disconnected (a ++ b) = (count_disconnected a + count_disconnected b)%nat.
+Proof. intros. unfold count_disconnected. rewrite filter_app, app_length. reflexivity. Qed.
+
+Lemma cd_inputs : forall evs, forallb is_input evs = true -> count_disconnected evs = O.
+Proof.
+  induction evs as [|e evs IH]; intro H; cbn in *; [reflexivity|].
+  apply andb_true_iff in H. destruct H as [He H]. destruct e; try discriminate. cbn. auto.
+Qed.
+
+Lemma inputs_no_sync : forall evs, forallb is_input evs = true -> ~ In EvSynchronized evs.
+Proof.
+  induction evs as [|e evs IH]; intros H; [intros []|].
+  cbn in H; apply andb_true_iff in H; destruct H as [He H]. intros [E|E].
+  - subst; discriminate.
+  - exact (IH H E).
+Qed.
+
+Lemma in_sync_app : forall w p, ~ In EvSynchronized p -> (In EvSynchronized (w ++ p) <-> In EvSynchronized w).
+Proof. intros w p H. rewrite in_app_iff. tauto. Qed.
+
+Lemma resumed_pre_cases : forall s,
+  (u_notify_sent s = true /\ u_state s = PRunning /\ resumed_pre s = [EvNetworkResumed]) \/
+  ((u_notify_sent s = false \/ u_state s <> PRunning) /\ resumed_pre s = []).
+Proof.
+  intro s. unfold resumed_pre. destruct (u_notify_sent s); cbn [andb]; [|right; auto].
+  destruct (pstate_eqb (u_state s) PRunning) eqn:E.
+  - left. apply pstate_eqb_eq in E. auto.
+  - right. split; [|reflexivity]. right. intro H. rewrite H in E. discriminate.
+Qed.
+
+Lemma wrap_small : forall x, 0 <= x < WRAP -> x mod WRAP = x.
+Proof. intros. apply Z.mod_small. assumption. Qed.
+
+(* ---------- invariant 1: grammar modulo Disconnected, at most one Disconnected, handshake count ---------- *)
+Lemma num_facts : 1 <= NUM_SYNC_PACKETS /\ NUM_SYNC_PACKETS < WRAP.
+Proof. split; [discriminate|reflexivity]. Qed.
+
+Definition hs_facts (s : ep) (w : list event) (ms : list (Z * Z)) : Prop :=
+  let m := Z.of_nat (length ms) in
+  (In EvSynchronized w <-> m = NUM_SYNC_PACKETS) /\ m <= NUM_SYNC_PACKETS /\
+  (m < NUM_SYNC_PACKETS -> u_remote_magic s = 0) /\
+  (m = NUM_SYNC_PACKETS -> u_remote_magic s = nth (Z.to_nat (NUM_SYNC_PACKETS - 1)) (map snd ms) 0).
+
+Definition st_facts (s : ep) (w : list event) (ms : list (Z * Z)) : Prop :=
+  let m := Z.of_nat (length ms) in
+  match u_state s with
+  | PInitializing =>
+    recog (RSync 0) (without_disconnected w) = Some (RSync 0) /\ m = 0 /\
+    u_notify_sent s = false /\ u_event_sent s = false
+  | PSynchronizing =>
+    recog (RSync 0) (without_disconnected w) = Some (RSync m) /\ m = NUM_SYNC_PACKETS - u_sync_remaining s /\
+    1 <= u_sync_remaining s <= NUM_SYNC_PACKETS /\ u_notify_sent s = false /\ u_event_sent s = false
+  | PRunning =>
+    recog (RSync 0) (without_disconnected w) = Some (if u_notify_sent s then RInterrupted else RRun) /\
+    m = NUM_SYNC_PACKETS
+  | _ => recog (RSync 0) (without_disconnected w) <> None
+  end.
+
+Definition Inv1 (s : ep) (W : list event) (ms : list (Z * Z)) : Prop :=
+  let w := W ++ u_event_queue s in
+  count_disconnected w = (if u_event_sent s then 1 else 0)%nat /\ hs_facts s w ms /\ st_facts s w ms.
+
+Lemma st_facts_accepts : forall s w ms, st_facts s w ms -> recog (RSync 0) (without_disconnected w) <> None.
+Proof.
+  intros s w ms H. unfold st_facts in H.
+  destruct (u_state s); try exact H; destruct H as [H _]; rewrite H; discriminate.
+Qed.
+
+Inductive pre_kind (s s' : ep) : list event -> Prop :=
+| pk_none : u_notify_sent s' = u_notify_sent s -> pre_kind s s' []
+| pk_resumed : u_notify_sent s = true -> u_state s = PRunning -> u_notify_sent s' = false ->
+               pre_kind s s' [EvNetworkResumed]
+| pk_interrupted : forall t, u_notify_sent s = false -> u_state s = PRunning -> u_notify_sent s' = true ->
+               pre_kind s s' [EvNetworkInterrupted t].
+
+(* state-preserving steps: optional Resumed/Interrupted, optional guarded Disconnected, inputs *)
+Lemma inv1_same_state : forall s W ms s' W' pre (d : bool) evs,
+  Inv1 s W ms ->
+  u_state s' = u_state s -> u_sync_remaining s' = u_sync_remaining s -> u_remote_magic s' = u_remote_magic s ->
+  W' ++ u_event_queue s' = (W ++ u_event_queue s) ++ pre ++ (if d then [EvDisconnected] else []) ++ evs ->
+  forallb is_input evs = true ->
+  (if d then u_event_sent s = false /\ u_event_sent s' = true /\ u_state s = PRunning
+   else u_event_sent s' = u_event_sent s) ->
+  pre_kind s s' pre ->
+  Inv1 s' W' ms.
+Proof.
+  intros s W ms s' W' pre d evs (Hc & (HA & HB & HC & HD) & Hst) Es Er Em Hw Hall Hd Hp.
+  unfold Inv1. cbv zeta. rewrite Hw. set (w := W ++ u_event_queue s) in *.
+  assert (Hwd : without_disconnected (w ++ pre ++ (if d then [EvDisconnected] else []) ++ evs)
+                = without_disconnected w ++ pre ++ evs).
+  { rewrite !wd_app, (wd_inputs evs Hall).
+    assert (without_disconnected pre = pre) as -> by (destruct Hp; reflexivity).
+    destruct d; reflexivity. }
+  assert (Hns : ~ In EvSynchronized (pre ++ (if d then [EvDisconnected] else []) ++ evs)).
+  { rewrite !in_app_iff. intros [H|[H|H]].
+    - destruct Hp; cbn in H; intuition discriminate.
+    - destruct d; cbn in H; intuition discriminate.
+    - exact (inputs_no_sync _ Hall H). }
+  split; [|split].
+  - rewrite !cd_app, (cd_inputs evs Hall), Hc.
+    assert (count_disconnected pre = O) as -> by (destruct Hp; reflexivity).
+    destruct d; [destruct Hd as (-> & -> & _); reflexivity|rewrite Hd; cbn; lia].
+  - unfold hs_facts. cbv zeta. rewrite Em. rewrite (in_sync_app _ _ Hns). repeat split; tauto.
+  - unfold st_facts in *. cbv zeta in *. rewrite Es, Er, Hwd.
+    destruct (u_state s) eqn:Est.
+    + destruct Hst as (R & M & N & E). rewrite recog_app, R.
+      destruct Hp as [Hn| |]; try congruence. cbn [app]. rewrite (recog_inputs _ _ Hall).
+      destruct d; [destruct Hd as (_ & _ & Hd); congruence|]. repeat split; congruence.
+    + destruct Hst as (R & M & S & N & E). rewrite recog_app, R.
+      destruct Hp as [Hn| |]; try congruence. cbn [app]. rewrite (recog_inputs _ _ Hall).
+      destruct d; [destruct Hd as (_ & _ & Hd); congruence|]. repeat split; try congruence; lia.
+    + destruct Hst as (R & M). rewrite recog_app, R. split; [|exact M].
+      destruct Hp as [Hn|Hn _ Hn'|t Hn _ Hn']; cbn [app recog].
+      * rewrite (recog_inputs _ _ Hall), Hn. reflexivity.
+      * rewrite Hn, Hn'. cbn [rstep]. apply recog_inputs. exact Hall.
+      * rewrite Hn, Hn'. cbn [rstep]. apply recog_inputs. exact Hall.
+    + rewrite recog_app. destruct (recog (RSync 0) (without_disconnected w)) as [r|]; [|congruence].
+      destruct Hp as [Hn| |]; try congruence. cbn [app]. rewrite (recog_inputs _ _ Hall). discriminate.
+    + rewrite recog_app. destruct (recog (RSync 0) (without_disconnected w)) as [r|]; [|congruence].
+      destruct Hp as [Hn| |]; try congruence. cbn [app]. rewrite (recog_inputs _ _ Hall). discriminate.
+Qed.
+
+Lemma inv1_dead : forall s W ms s' W',
+  Inv1 s W ms -> (u_state s' = PDisconnected \/ u_state s' = PShutdown) ->
+  u_remote_magic s' = u_remote_magic s -> u_event_sent s' = u_event_sent s ->
+  W' ++ u_event_queue s' = W ++ u_event_queue s -> Inv1 s' W' ms.
+Proof.
+  intros s W ms s' W' (Hc & Hh & Hst) Hs Em Ee Hw. unfold Inv1. cbv zeta. rewrite Hw, Ee.
+  split; [exact Hc|]. split.
+  - unfold hs_facts in *. cbv zeta in *. rewrite Em. exact Hh.
+  - apply st_facts_accepts in Hst. unfold st_facts. destruct Hs as [-> | ->]; exact Hst.
+Qed.
+
+Lemma match_of_filtered : forall s now nonce m, passes_filters s m = false -> match_of s (OMessage now nonce m) = [].
+Proof. intros s now nonce m H. unfold match_of. destruct (m_body m); try reflexivity. rewrite H. reflexivity. Qed.
+
+Lemma match_of_matched : forall s now nonce m n,
+  passes_filters s m = true -> m_body m = SyncReply n -> u_state s = PSynchronizing ->
+  zmem n (u_sync_requests s) = true -> match_of s (OMessage now nonce m) = [(n, m_magic m)].
+Proof. intros s now nonce m n Hp Hb Hs Hm. unfold match_of. rewrite Hb, Hp, Hs, Hm. reflexivity. Qed.
+
+Lemma match_of_not_message : forall s o, (forall now nonce m, o <> OMessage now nonce m) -> match_of s o = [].
+Proof. intros s o H. destruct o; try reflexivity. exfalso. eapply H; eauto. Qed.
+
+Ltac lsolve := cbn [app]; rewrite ?app_nil_r, <- ?app_assoc; cbn [app]; rewrite ?app_nil_r; reflexivity.
+
+Lemma inv1_step : forall dbg o s s' out W ms,
+  Inv1 s W ms -> step dbg o s = Ok (s', out) -> Inv1 s' (W ++ out) (ms ++ match_of s o).
+Proof.
+  intros dbg o s s' out W ms HI H.
+  destruct o as [now nonce|now nonce m|now nonce cs|now inputs cs|now|now fr ck|lf|].
+  - (* synchronize *)
+    unfold step in H; cbn [step_gen] in H.
+    destruct (synchronize now nonce s) as [t| |] eqn:E; inversion H; subst; clear H.
+    apply synchronize_effect in E.
+    destruct E as (S0 & S1 & S2 & S3 & S4 & S5 & S6 & S7 & S8 & S9 & S10).
+    cbn [match_of]. rewrite !app_nil_r.
+    destruct HI as (Hc & (HA & HB & HC & HD) & Hst). unfold Inv1. cbv zeta. rewrite S10, S5.
+    split; [exact Hc|]. split.
+    + unfold hs_facts. cbv zeta. rewrite S6. repeat split; tauto.
+    + unfold st_facts in *. cbv zeta in *. rewrite S0 in Hst. rewrite S1, S2, S4, S5.
+      destruct Hst as (R & M & N & E). rewrite M. pose proof num_facts.
+      repeat split; try assumption; lia.
+  - (* handle_message *)
+    unfold step in H; cbn [step_gen] in H.
+    destruct (handle_message dbg now nonce m s) as [t| |] eqn:E; inversion H; subst; clear H.
+    apply handle_message_effect in E.
+    destruct E as [(Hf & ->)|(Hp & L & NS & TO & NT & [(Hm & Hmm)|(Hm & Ho)])].
+    + rewrite (match_of_filtered _ _ _ _ Hf), !app_nil_r. exact HI.
+    + (* matched reply *)
+      destruct Hmm as (n & Eb & Ss & Zm & R1 & R3 & Hcase).
+      rewrite (match_of_matched _ _ _ _ _ Hp Eb Ss Zm), app_nil_r.
+      destruct HI as (Hc & (HA & HB & HC & HD) & Hst).
+      unfold st_facts in Hst. cbv zeta in Hst. rewrite Ss in Hst.
+      destruct Hst as (R & M & (Slo & Shi) & N & E).
+      pose proof num_facts as (N1 & N2).
+      assert (Erem : (u_sync_remaining s - 1) mod WRAP = u_sync_remaining s - 1)
+        by (apply wrap_small; lia).
+      rewrite Erem in *.
+      assert (Elen : Z.of_nat (length (ms ++ [(n, m_magic m)])) = Z.of_nat (length ms) + 1)
+        by (rewrite app_length; cbn [length]; lia).
+      assert (Hnos : ~ In EvSynchronized (W ++ u_event_queue s)) by (rewrite HA; lia).
+      unfold Inv1. cbv zeta. rewrite R3, E.
+      destruct Hcase as [(Hpos & S' & Rm & Rq & Q)|(Hz & S' & Rm & Rq & Q)]; rewrite Q, app_assoc.
+      * assert (Ecnt : (NUM_SYNC_PACKETS - (u_sync_remaining s - 1)) mod WRAP = Z.of_nat (length ms) + 1)
+          by (rewrite wrap_small; lia).
+        rewrite Ecnt. split; [|split].
+        -- rewrite cd_app, Hc, E. reflexivity.
+        -- unfold hs_facts. cbv zeta. rewrite Elen, Rm. rewrite in_app_iff.
+           split; [|split; [lia|split; [intros _; apply HC; lia|intro; lia]]].
+           split; [intros [X|[X|[]]]; [tauto|discriminate]|intro; lia].
+        -- unfold st_facts. cbv zeta. rewrite S', Elen, R1, wd_app, recog_app, R. cbn [without_disconnected filter is_disconnected negb recog rstep].
+           assert (((NUM_SYNC_PACKETS =? NUM_SYNC_PACKETS) && (Z.of_nat (length ms) + 1 =? Z.of_nat (length ms) + 1)
+                    && (Z.of_nat (length ms) + 1 <? NUM_SYNC_PACKETS)) = true) as -> by lia.
+           rewrite NT, N. cbn [andb]. repeat split; lia.
+      * assert (Esr : u_sync_remaining s = 1) by lia.
+        split; [|split].
+        -- rewrite cd_app, Hc, E. reflexivity.
+        -- unfold hs_facts. cbv zeta. rewrite Elen, Rm. rewrite in_app_iff.
+           split; [|split; [lia|split; [intro; lia|]]].
+           ++ split; [intro; lia|intro; right; left; reflexivity].
+           ++ intros _. rewrite map_app. cbn [map snd].
+              assert (Z.to_nat (NUM_SYNC_PACKETS - 1) = length (map snd ms)) as -> by (rewrite map_length; lia).
+              rewrite app_nth2, Nat.sub_diag by lia. reflexivity.
+        -- unfold st_facts. cbv zeta. rewrite S', Elen, wd_app, recog_app, R. cbn [without_disconnected filter is_disconnected negb recog rstep].
+           assert ((Z.of_nat (length ms) =? NUM_SYNC_PACKETS - 1) = true) as -> by lia.
+           rewrite NT, N. cbn [andb]. split; [reflexivity|lia].
+    + (* any other accepted message *)
+      rewrite Hm, !app_nil_r.
+      destruct Ho as (O1 & O2 & O3 & O4 & O5 & evs & Hall & Hq).
+      assert (Hpk : pre_kind s s' (resumed_pre s)).
+      { destruct (resumed_pre_cases s) as [(A & B & ->)|([A|A] & ->)].
+        - apply pk_resumed; try assumption. rewrite NT, A, B. reflexivity.
+        - apply pk_none. rewrite NT, A. reflexivity.
+        - apply pk_none. rewrite NT. destruct (pstate_eqb (u_state s) PRunning) eqn:X;
+            [apply pstate_eqb_eq in X; contradiction|]. cbn. apply andb_true_r. }
+      destruct Hq as [(B1 & B2 & B3 & B4)|(B1 & B2)].
+      * eapply (inv1_same_state s W ms s' W (resumed_pre s) true evs); eauto.
+        rewrite B4. lsolve.
+      * eapply (inv1_same_state s W ms s' W (resumed_pre s) false evs); eauto.
+        rewrite B2. lsolve.
+  - (* poll *)
+    unfold step in H; cbn [step_gen] in H.
+    destruct (poll now nonce cs s) as [[evs t]| |] eqn:E; inversion H; subst; clear H.
+    apply poll_effect in E. destruct E as (Q & NS & TO & L & RM & SR & Hst).
+    cbn [match_of]. rewrite app_nil_r.
+    destruct (u_state s) eqn:Es.
+    + destruct Hst as (A & B & C & D & F).
+      eapply (inv1_same_state s W ms s' _ [] false []); eauto; try congruence.
+      * rewrite Q, D. lsolve.
+      * apply pk_none; exact B.
+    + destruct Hst as (A & B & C & D & F).
+      eapply (inv1_same_state s W ms s' _ [] false []); eauto; try congruence.
+      * rewrite Q, D. lsolve.
+      * apply pk_none; exact B.
+    + destruct Hst as (A & B & C & D & F).
+      eapply (inv1_same_state s W ms s' _
+                (if interrupt_now now s then [EvNetworkInterrupted (Z.max 0 (u_timeout s - u_notify_start s))] else [])
+                (timeout_now now s) []); eauto; try congruence.
+      * rewrite Q, F. unfold poll_pushed. lsolve.
+      * destruct (timeout_now now s) eqn:T.
+        -- unfold timeout_now in T. apply andb_true_iff in T. destruct T as [T _].
+           destruct (u_event_sent s); [discriminate|]. rewrite D. auto.
+        -- rewrite D. apply orb_false_r.
+      * destruct (interrupt_now now s) eqn:T.
+        -- unfold interrupt_now in T. apply andb_true_iff in T. destruct T as [T _].
+           apply pk_interrupted; try assumption; [destruct (u_notify_sent s); [discriminate|reflexivity]|].
+           rewrite C. apply orb_true_r.
+        -- apply pk_none. rewrite C. apply orb_false_r.
+    + destruct Hst as (A & B & C & D & F).
+      eapply (inv1_dead s W ms s'); eauto.
+      * destruct (u_shutdown_timeout s <? now); auto.
+      * rewrite Q, D. lsolve.
+    + destruct Hst as (A & B & C & D & F).
+      eapply (inv1_dead s W ms s'); eauto.
+      rewrite Q, D. lsolve.
+  - (* send_input *)
+    unfold step in H; cbn [step_gen] in H.
+    destruct (send_input_gen true now inputs cs s) as [t| |] eqn:E; inversion H; subst; clear H.
+    apply send_input_effect in E. destruct E as ((A1 & A2 & A3 & A4 & A5 & A6 & A7 & A8 & A9) & Hq).
+    cbn [match_of]. rewrite !app_nil_r.
+    destruct Hq as [(B1 & B2 & B3 & B4)|(B1 & B2)].
+    + eapply (inv1_same_state s W ms s' W [] true []); eauto.
+      * rewrite B4. lsolve.
+      * apply pk_none; exact A4.
+    + eapply (inv1_same_state s W ms s' W [] false []); eauto.
+      * rewrite B2. lsolve.
+      * apply pk_none; exact A4.
+  - (* disconnect *)
+    unfold step in H; cbn [step_gen] in H. inversion H; subst; clear H.
+    pose proof (disconnect_effect now s) as (D1 & D2 & D3 & D4 & D5 & D6 & D7 & D8 & D9 & D10).
+    cbn [match_of]. rewrite !app_nil_r.
+    eapply inv1_dead; eauto.
+    + rewrite D1. destruct (pstate_eqb (u_state s) PShutdown); auto.
+    + rewrite D10. lsolve.
+  - pose proof (misc_effect _ _ _ _ _ H) as (((A1 & A2 & A3 & A4 & A5 & A6 & A7 & A8 & A9) & B & C) & ->).
+    cbn [match_of]. rewrite !app_nil_r.
+    eapply (inv1_same_state s W ms s' W [] false []); eauto.
+    + rewrite C. lsolve.
+    + apply pk_none; exact A4.
+  - pose proof (misc_effect _ _ _ _ _ H) as (((A1 & A2 & A3 & A4 & A5 & A6 & A7 & A8 & A9) & B & C) & ->).
+    cbn [match_of]. rewrite !app_nil_r.
+    eapply (inv1_same_state s W ms s' W [] false []); eauto.
+    + rewrite C. lsolve.
+    + apply pk_none; exact A4.
+  - pose proof (misc_effect _ _ _ _ _ H) as (((A1 & A2 & A3 & A4 & A5 & A6 & A7 & A8 & A9) & B & C) & ->).
+    cbn [match_of]. rewrite !app_nil_r.
+    eapply (inv1_same_state s W ms s' W [] false []); eauto.
+    + rewrite C. lsolve.
+    + apply pk_none; exact A4.
+Qed.
+
+Lemma inv1_run : forall dbg ops s W ms s' evs,
+  Inv1 s W ms -> run dbg s ops = Ok (s', evs) -> Inv1 s' (W ++ evs) (ms ++ matches dbg s ops).
+Proof.
+  induction ops as [|o r IH]; intros s W ms s' evs HI H; cbn [run matches] in *.
+  - inversion H; subst. rewrite !app_nil_r. exact HI.
+  - destruct (step dbg o s) as [[s1 e1]| |] eqn:E; try discriminate.
+    destruct (run dbg s1 r) as [[s2 e2]| |] eqn:E2; try discriminate.
+    inversion H; subst. rewrite !app_assoc. eapply IH; [|exact E2].
+    eapply inv1_step; eauto.
+Qed.
+
+Section Initial.
+Variables (now magic : Z) (handles : list Z) (np lp mp timeout notify fps : Z) (desync : option Z).
+Let s0 := ep_new now magic handles np lp mp timeout notify fps desync.
+
+Lemma inv1_initial : Inv1 s0 [] [].
+Proof.
+  unfold Inv1, hs_facts, st_facts. cbn. pose proof num_facts.
+  repeat split; try reflexivity; try lia; try tauto; intros; lia.
+Qed.
+
+Lemma reach_inv1 : forall dbg ops s evs,
+  run dbg s0 ops = Ok (s, evs) -> Inv1 s evs (matches dbg s0 ops).
+Proof. intros dbg ops s evs H. exact (inv1_run dbg ops s0 [] [] s evs inv1_initial H). Qed.
+
+(* (a), unconditional part *)
+Lemma grammar_modulo_disconnected : forall dbg ops s evs,
+  run dbg s0 ops = Ok (s, evs) ->
+  event_grammar (without_disconnected evs) /\ (count_disconnected evs <= 1)%nat.
+Proof.
+  intros dbg ops s evs H. apply reach_inv1 in H. destruct H as (Hc & _ & Hst). split.
+  - apply st_facts_accepts in Hst. rewrite wd_app in Hst. exact (recog_prefix _ _ _ Hst).
+  - rewrite cd_app in Hc. destruct (u_event_sent s); lia.
+Qed.
+
+(* (b) *)
+Lemma handshake_count : forall dbg ops s evs,
+  run dbg s0 ops = Ok (s, evs) ->
+  let m := matched dbg s0 ops in
+  0 <= m <= NUM_SYNC_PACKETS /\
+  (m = NUM_SYNC_PACKETS <-> In EvSynchronized (evs ++ u_event_queue s)) /\
+  (is_running s = true -> m = NUM_SYNC_PACKETS) /\
+  (m = NUM_SYNC_PACKETS -> is_synchronized s = true) /\
+  (m < NUM_SYNC_PACKETS -> u_remote_magic s = 0) /\
+  (m = NUM_SYNC_PACKETS ->
+   u_remote_magic s = nth (Z.to_nat (NUM_SYNC_PACKETS - 1)) (map snd (matches dbg s0 ops)) 0).
+Proof.
+  intros dbg ops s evs H. apply reach_inv1 in H. cbv zeta. unfold matched.
+  destruct H as (_ & (HA & HB & HC & HD) & Hst). pose proof num_facts as (N1 & N2).
+  split; [lia|]. split; [tauto|]. split; [|split; [|split; assumption]].
+  - unfold is_running. intro R. apply pstate_eqb_eq in R. unfold st_facts in Hst. rewrite R in Hst. tauto.
+  - intro M. unfold is_synchronized, st_facts in *. destruct (u_state s); try reflexivity.
+    + destruct Hst as (_ & M0 & _). lia.
+    + destruct Hst as (_ & M0 & S & _). lia.
+Qed.
+End Initial.
+
+(* ---------- invariant 2: the full grammar under the caller discipline ---------- *)
+Definition InvS (s : ep) (W : list event) (md : bool) : Prop :=
+  let w := W ++ u_event_queue s in
+  match u_state s with
+  | PInitializing =>
+    recog (RSync 0) w = Some (RSync 0) /\ u_notify_sent s = false /\ u_event_sent s = false
+  | PSynchronizing =>
+    recog (RSync 0) w = Some (RSync (NUM_SYNC_PACKETS - u_sync_remaining s)) /\
+    1 <= u_sync_remaining s <= NUM_SYNC_PACKETS /\ u_notify_sent s = false /\ u_event_sent s = false
+  | PRunning =>
+    if u_event_sent s
+    then recog (RSync 0) w = Some RDead /\ (md = true \/ In EvDisconnected (u_event_queue s))
+    else recog (RSync 0) w = Some (if u_notify_sent s then RInterrupted else RRun)
+  | _ => recog (RSync 0) w <> None
+  end.
+
+Lemma invS_accepts : forall s W md, InvS s W md -> recog (RSync 0) (W ++ u_event_queue s) <> None.
+Proof.
+  intros s W md H. unfold InvS in H. cbv zeta in H.
+  destruct (u_state s); try exact H.
+  - destruct H as [H _]; rewrite H; discriminate.
+  - destruct H as [H _]; rewrite H; discriminate.
+  - destruct (u_event_sent s); [destruct H as [H _]|]; rewrite H; discriminate.
+Qed.
+
+Lemma invS_same_state : forall s W md s' W' md' pre (d : bool) evs,
+  InvS s W md ->
+  u_state s' = u_state s -> u_sync_remaining s' = u_sync_remaining s ->
+  W' ++ u_event_queue s' = (W ++ u_event_queue s) ++ pre ++ (if d then [EvDisconnected] else []) ++ evs ->
+  forallb is_input evs = true ->
+  (if d then u_event_sent s = false /\ u_event_sent s' = true /\ u_state s = PRunning
+   else u_event_sent s' = u_event_sent s) ->
+  pre_kind s s' pre ->
+  (u_event_sent s = true -> pre = []) ->
+  (u_state s = PRunning -> u_event_sent s' = true -> md' = true \/ In EvDisconnected (u_event_queue s')) ->
+  InvS s' W' md'.
+Proof.
+  intros s W md s' W' md' pre d evs HI Es Er Hw Hall Hd Hp Hpre Hmd.
+  unfold InvS in *. cbv zeta in *. rewrite Hw, Es, Er. set (w := W ++ u_event_queue s) in *.
+  destruct (u_state s) eqn:Est.
+  - destruct HI as (R & N & E).
+    destruct Hp as [Hn| |]; try congruence. destruct d; [destruct Hd as (_ & _ & Hd); congruence|].
+    cbn [app]. rewrite recog_app, R, (recog_inputs _ _ Hall). repeat split; congruence.
+  - destruct HI as (R & S & N & E).
+    destruct Hp as [Hn| |]; try congruence. destruct d; [destruct Hd as (_ & _ & Hd); congruence|].
+    cbn [app]. rewrite recog_app, R, (recog_inputs _ _ Hall). repeat split; try congruence; lia.
+  - destruct (u_event_sent s) eqn:Ee.
+    + destruct HI as (R & _). rewrite (Hpre eq_refl).
+      destruct d; [destruct Hd; discriminate|]. rewrite Hd. cbn [app].
+      rewrite recog_app, R, (recog_inputs _ _ Hall). split; [reflexivity|]. apply Hmd; auto.
+    + rewrite recog_app, HI.
+      assert (Hr : recog (if u_notify_sent s then RInterrupted else RRun) pre
+                   = Some (if u_notify_sent s' then RInterrupted else RRun)).
+      { destruct Hp as [Hn|Hn _ Hn'|t Hn _ Hn']; cbn [recog]; rewrite ?Hn, ?Hn'; reflexivity. }
+      rewrite recog_app, Hr.
+      destruct d.
+      * destruct Hd as (_ & Hd & _). rewrite Hd. cbn [app recog].
+        assert (rstep (if u_notify_sent s' then RInterrupted else RRun) EvDisconnected = Some RDead) as ->
+          by (destruct (u_notify_sent s'); reflexivity).
+        rewrite (recog_inputs _ _ Hall). split; [reflexivity|]. apply Hmd; auto.
+      * rewrite Hd. cbn [app]. apply recog_inputs. exact Hall.
+  - destruct Hp as [Hn| |]; try congruence. destruct d; [destruct Hd as (_ & _ & Hd); congruence|].
+    cbn [app]. rewrite recog_app. destruct (recog (RSync 0) w); [|congruence].
+    rewrite (recog_inputs _ _ Hall). discriminate.
+  - destruct Hp as [Hn| |]; try congruence. destruct d; [destruct Hd as (_ & _ & Hd); congruence|].
+    cbn [app]. rewrite recog_app. destruct (recog (RSync 0) w); [|congruence].
+    rewrite (recog_inputs _ _ Hall). discriminate.
+Qed.
+
+Lemma invS_dead : forall s W md s' W' md',
+  InvS s W md -> (u_state s' = PDisconnected \/ u_state s' = PShutdown) ->
+  W' ++ u_event_queue s' = W ++ u_event_queue s -> InvS s' W' md'.
+Proof.
+  intros s W md s' W' md' HI Hs Hw. apply invS_accepts in HI. unfold InvS. cbv zeta. rewrite Hw.
+  destruct Hs as [-> | ->]; exact HI.
 Qed.
